@@ -18,7 +18,7 @@ CHECKS = {
  "C03": ("fault_enumeration", CRASH + "recovered dump must equal a prefix state within the interval the property allows; recovered database must stay usable; a fifth of the runs crash a database used by several clients under the seeded scheduler, judged by a search for a real-time-respecting, downward-closed order of the begun operations",
          "All crash positions of every generated run (process crash) and seeded power-loss cuts (nothing/all/torn/inside a chunk header/1-7 bytes before a block boundary); prefix-interval oracle; usability round after recovery (a Put, fresh batches, a clean restart); schedules x crash positions for concurrent clients incl. a concurrent Merge.",
          TB + " Power loss loses a not-yet-synced tail from the end only; directory operations durable in program order.", "DESIGN.md 4 C03"),
- "C04": ("fault_enumeration", CRASH + "a batch is one mutation of the prefix oracle, so a partially visible batch equals no allowed state; Sync batches must survive power loss; a fifth of the runs: batches committed by several concurrent clients, each batch one atomic step of the order searched for",
+ "C04": ("fault_enumeration", CRASH + "a batch is one mutation of the prefix oracle, so a partially visible batch equals no allowed state; Sync batches must survive power loss; a fifth of the runs: batches committed by several concurrent clients, each batch one atomic step of the order searched for; the wall clock is stepped back across every second recovery that is followed by further batches",
          "All crash positions of batch workloads incl. multi-piece flushes across files; later histories with merges and restarts; schedules x crash positions for concurrent committers.",
          TB + " Same durability model as C03.", "DESIGN.md 4 C04"),
  "C05": ("exploration", SEQ + "layered overlay model for an open batch; concurrent arm: other clients while a batch is open, histories checked with porcupine",
